@@ -59,8 +59,19 @@ func (s *bungeeServer) BroadcastPluginMessage(identifier message.ChannelIdentifi
 	if s == nil {
 		return
 	}
-	sinks := PlayersToSlice[message.ChannelMessageSink](s.s.Players())
-	BroadcastPluginMessage(sinks, identifier, data)
+	// Deliver the message once to the server itself, over the backend connection
+	// of one of its players (not to the players' clients).
+	s.s.Players().Range(func(p Player) bool {
+		player, ok := p.(*connectedPlayer)
+		if !ok {
+			return true
+		}
+		serverConn := player.connectedServer()
+		if serverConn == nil || !RegisteredServerEqual(serverConn.Server(), s.s) {
+			return true
+		}
+		return serverConn.SendPluginMessage(identifier, data) != nil // stop after the first delivery
+	})
 }
 func (s *bungeeServer) Connect(player bungeecord.Player) {
 	if s == nil {
